@@ -178,7 +178,7 @@ def part_design(rep, tier, d):
         nv.write_ndjson(inp, [{"id": c["id"], "uses": c["uses"], "runs": [r["tops"] for r in c["runs"]]} for c in cases])
         if not run_harness(rep, ["synthetic", "--cases", inp, "--out", out], "synthetic graphs " + label):
             continue
-        results = nv.read_ndjson_text(open(out).read())
+        results = nv.read_ndjson_text(open(out, encoding="utf-8").read())
         if len(results) != len(cases):
             raise nv.ToolError("synthetic replay: %d results for %d cases" % (len(results), len(cases)))
         ndrift = 0
@@ -211,7 +211,7 @@ def part_design(rep, tier, d):
         out = os.path.join(d, "synth_self_out.ndjson")
         nv.write_ndjson(inp, [{"id": 0, "uses": c["uses"], "runs": [r["tops"] for r in c["runs"] if len(r["post"]) >= 2][:1]}])
         nv.harness("nv-modules", ["synthetic", "--cases", inp, "--out", out])
-        r = nv.read_ndjson_text(open(out).read())[0]
+        r = nv.read_ndjson_text(open(out, encoding="utf-8").read())[0]
         viol, drift = compare_synth(c, r, corrupt=True)
         rep.notes["binding_selftest_corrupted_order_noticed"] = bool(viol or drift)
         if not (viol or drift):
@@ -337,7 +337,7 @@ def full_detail(d, seq, exp):
     nv.write_ndjson(inp, [{"id": 0, "seq": seq, "batch": False}])
     try:
         nv.harness("nv-modules", ["query", "--cases", inp, "--out", out, "--full"], timeout=300)
-        full = nv.read_ndjson_text(open(out).read())[0]["full"]
+        full = nv.read_ndjson_text(open(out, encoding="utf-8").read())[0]["full"]
     except Exception as ex:  # pragma: no cover
         return {"error": str(ex)}
     det = {}
